@@ -55,6 +55,23 @@ Theorem C15_alias_invariant :
 Proof. exact find_alias_i. Qed.
 Print Assumptions C15_alias_invariant.
 
+(* The cache may be keyed by the spelling ONLY.  Remembering an answer also under the
+   lexically normalised spelling (os.path.normpath) is refuted: with links/sub -> ../src/deep,
+   the spelling links/sub/../a.c denotes src/a.c, its textual collapse links/a.c is another
+   file, and a later look-up of links/a.c is answered with src/a.c. *)
+Theorem C15_normpath_cache_refuted :
+  exists (root : fnode) (p : path),
+    let s1 := fst (get_realpath_np (rp_i root) unit norm (empty unit) p) in
+    snd (get_realpath_np (rp_i root) unit norm s1 (norm p)) <> rp_i root (norm p) /\
+    snd (get_realpath (rp_i root) unit (fst (get_realpath (rp_i root) unit (empty unit) p)) (norm p)) = rp_i root (norm p).
+Proof.
+  exists (Dir [("src", Dir [("a.c", File "a"); ("deep", Dir [])]);
+               ("links", Dir [("a.c", File "other"); ("sub", Link false [".."; "src"; "deep"])])]),
+         ["links"; "sub"; ".."; "a.c"].
+  vm_compute. split; [discriminate|reflexivity].
+Qed.
+Print Assumptions C15_normpath_cache_refuted.
+
 (* A path enumerated below a resolved directory that is not itself a link is its own
    realpath (for every bound). *)
 Theorem C15_enumerated_real :
